@@ -228,6 +228,10 @@ func run(c *lib.Ctx) error {
 		pc := permCases[b.Index]
 		c.Reject("builtin:"+pc.A+":transpose", fmt.Sprintf("%s on runes %v dot %d -> runes %v dot %d: not a permutation with a valid dot", pc.A, pc.B, pc.D, pc.B2, pc.D2), map[string]any{"buf": pc.B, "dot": pc.D, "builtin": pc.A})
 	}
+	// ---- G, code-area events
+	if err := codeAreaG(c, dir, fns); err != nil {
+		return err
+	}
 	// ---- V
 	if err := validate(c, dir, fns); err != nil {
 		return err
